@@ -269,6 +269,15 @@ func (P) Exec(line string) string {
 			parts[i] = fmt.Sprintf("%d=%s", k, txo{uint64(e.Amount()), e.PkScript(), e.BlockHeight(), e.IsCoinBase()})
 		}
 		return "ok " + strings.Join(parts, ";")
+	case "v1row":
+		m, err := blockchain.VerifReadBlockTree([][]byte{unhex(f[2])})
+		if err != nil {
+			return "err"
+		}
+		for h, parent := range m {
+			return fmt.Sprintf("ok %s %s", hex.EncodeToString(h[:]), hex.EncodeToString(parent[:]))
+		}
+		return "ok -"
 	case "opkey":
 		var op wire.OutPoint
 		copy(op.Hash[:], unhex(f[2]))
@@ -771,6 +780,8 @@ func (P) Generate(g *core.Gen) {
 			ws.SetInt64(r.Range(0, 256))
 		case 2:
 			ws.Lsh(big.NewInt(1), uint(8*r.Intn(40)))
+		case 3: // long work sums: the length field needs its second byte
+			ws.SetBytes(r.Bytes(int(r.Pick(255, 256, 257, 300, 5000))))
 		}
 		ht := r.U32() >> uint(r.Intn(32))
 		tt := r.U64() >> uint(r.Intn(64))
@@ -779,7 +790,7 @@ func (P) Generate(g *core.Gen) {
 		var h chainhash.Hash
 		copy(h[:], hash)
 		ser := blockchain.VerifSerializeBestChainState(h, ht, tt, ws)
-		malformed(g, r, "unbest", ser, "", i%10 == 0)
+		malformed(g, r, "unbest", ser, "", i%10 == 0 && len(ser) < 200)
 		// lie about the work sum length
 		c := append([]byte{}, ser...)
 		wl := []uint32{0, 1, uint32(len(ser) - 48), uint32(len(ser) - 47), uint32(len(ser) - 49), 0xffffffff, 0xffffffd0, 0xffffffcf, 0xffffffd1, 0x80000000, 1 << 24}[r.Intn(11)]
@@ -808,6 +819,14 @@ func (P) Generate(g *core.Gen) {
 	}
 	for n := 0; n < 84; n++ {
 		g.Case("unrow-len", n > 0, "C15 unrow "+hexTok(r.Bytes(n)))
+	}
+
+	// ---- legacy v1 block index rows (block index migration)
+	for n := 0; n < 100; n++ {
+		g.Case("v1row-len", n > 0, "C15 v1row "+hexTok(r.Bytes(n)))
+	}
+	for i := 0; i < g.N(100, 5000); i++ {
+		g.Case("v1row", true, "C15 v1row "+hexTok(r.Bytes(92+r.Intn(20))))
 	}
 
 	// ---- outpoint keys (utxo set database key: hash || VLQ(index))
